@@ -457,6 +457,13 @@ class PathSym:
             return frozenset([opaque('many:' + norm(e)[:60])])
         return out
 
+    @staticmethod
+    def _cat_all(p: T.List[Term]) -> Term:
+        acc = const('')
+        for x in p:
+            acc = mk_cat(acc, x)
+        return acc
+
     def _product(self, sets: T.List[Terms], build: T.Callable[[T.List[Term]], Term]) -> Terms:
         import itertools
         n = 1
@@ -490,6 +497,39 @@ class PathSym:
         if isinstance(e, ast.BinOp) and isinstance(e.op, ast.Add):
             return self._product([self._res(ref, e.left, env, depth, busy), self._res(ref, e.right, env, depth, busy)],
                                  lambda p: mk_cat(p[0], p[1]))
+        if isinstance(e, ast.BinOp) and isinstance(e.op, ast.Mod) and isinstance(e.left, ast.Constant) and isinstance(e.left.value, str):
+            # '%s~' % x  /  '%s/%s' % (a, b): the same text template as an f-string
+            fmt = e.left.value
+            args = list(e.right.elts) if isinstance(e.right, ast.Tuple) else [e.right]
+            pieces = fmt.split('%s')
+            if len(pieces) == len(args) + 1 and '%' not in ''.join(pieces):
+                sets: T.List[Terms] = []
+                for i, piece in enumerate(pieces):
+                    sets.append(frozenset([const(piece)]))
+                    if i < len(args):
+                        sets.append(self._res(ref, args[i], env, depth, busy))
+                return self._product(sets, self._cat_all)
+            return frozenset([opaque(norm(e))])
+        if isinstance(e, ast.Call) and isinstance(e.func, ast.Attribute) and e.func.attr == 'format' and isinstance(e.func.value, ast.Constant) \
+                and isinstance(e.func.value.value, str) and not e.keywords:
+            fmt = e.func.value.value
+            pieces = fmt.split('{}')
+            if len(pieces) == len(e.args) + 1 and '{' not in ''.join(pieces):
+                sets = []
+                for i, piece in enumerate(pieces):
+                    sets.append(frozenset([const(piece)]))
+                    if i < len(e.args):
+                        sets.append(self._res(ref, e.args[i], env, depth, busy))
+                return self._product(sets, self._cat_all)
+            return frozenset([opaque(norm(e))])
+        if isinstance(e, ast.Call) and isinstance(e.func, ast.Attribute) and e.func.attr == 'join' and isinstance(e.func.value, ast.Constant) \
+                and isinstance(e.func.value.value, str) and len(e.args) == 1 and isinstance(e.args[0], (ast.List, ast.Tuple)):
+            sep = e.func.value.value
+            elts = e.args[0].elts
+            if sep in ('', '/') and not any(isinstance(x, ast.Starred) for x in elts):
+                parts_sets = [self._res(ref, x, env, depth, busy) for x in elts]
+                return self._product(parts_sets, self._cat_all if sep == '' else mk_join)
+            return frozenset([opaque(norm(e))])
         if isinstance(e, ast.BinOp) and isinstance(e.op, ast.Div):
             return self._product([self._res(ref, e.left, env, depth, busy), self._res(ref, e.right, env, depth, busy)], mk_join)
         if isinstance(e, ast.JoinedStr):
@@ -509,6 +549,8 @@ class PathSym:
                     acc = mk_cat(acc, x)
                 return acc
             return self._product(parts, cat_all) if parts else frozenset([const('')])
+        if isinstance(e, ast.NamedExpr):
+            return self._res(ref, e.value, env, depth, busy)
         if isinstance(e, ast.IfExp):
             return self._res(ref, e.body, env, depth, busy) | self._res(ref, e.orelse, env, depth, busy)
         if isinstance(e, ast.Call):
